@@ -26,7 +26,7 @@ LAYOUTS = ((1, "AA+BB"), (2, "AABB"), (4, "AABBCRCI"), (4, "STOKE"))
 
 def REQUIRED(tier):
     return ["files_generated", "files_in_domain", "whole_file_checks", "position_requests", "regime:unaligned_start", "regime:crosses_subint", "plan_checks", "reduction_checks",
-            "header_type_checks", "band:ascending", "band:descending", "layout:AABBCRCI", "layout:STOKE", "mutation_checks", "regime:partial_last_subint", "regime:chan_bw_card_disagrees_with_dat_freq", "regime:path_previously_held_another_file", "regime:unit_scales_nonzero_offsets", "plan:allocator_option", "subband_requests", "regime:rows_longer_than_256_samples", "regime:zero_off_card_is_an_integer"]
+            "header_type_checks", "band:ascending", "band:descending", "layout:AABBCRCI", "layout:STOKE", "mutation_checks", "regime:partial_last_subint", "regime:chan_bw_card_disagrees_with_dat_freq", "regime:path_previously_held_another_file", "regime:unit_scales_nonzero_offsets", "plan:allocator_option", "subband_requests", "regime:rows_longer_than_256_samples", "regime:zero_off_card_is_an_integer", "regime:table_cells_wider_than_the_band", "regime:wide_cells_with_two_polarisations_in_the_product"]
 
 
 def cases(tier, seed):
@@ -76,10 +76,17 @@ def _gen(case, ctx, path=None):
     if case["fseed"] % 4 == 2:
         step = float(freqs[1] - freqs[0])
         cbw = -step if case["fseed"] % 8 == 2 else abs(step) * (1 if step < 0 else -1)
-    psrfits.write_psrfits(path, raw, nstot=nstot, chan_bw=cbw, **meta)
+    # per-channel table cells wider than the file's own band (a sub-band cut out of a wider observation whose column formats were kept):
+    # the reader documents that it takes the leading NCHAN (NPOL*NCHAN) entries of every such cell
+    cell_pad = int(rng.choice([1, 3, nchan])) if (f in (2, 3, 6) or case["fseed"] % 7 == 0) else 0
+    if cell_pad:
+        ctx.count("regime:table_cells_wider_than_the_band")
+        if npol > 1 and pol.endswith("CRCI"):
+            ctx.count("regime:wide_cells_with_two_polarisations_in_the_product")
+    psrfits.write_psrfits(path, raw, nstot=nstot, chan_bw=cbw, cell_pad=cell_pad, **meta)
     ref = psrfits.reference_values(raw, pol_type=pol, freqs=freqs, scl=scl, offs=offs, wts=wts, zero_off=zero_off)[:nstot]
     info = {"nsub": nsub, "nsblk": nsblk, "nchan": nchan, "npol": npol, "pol_type": pol, "nbits": nbits, "ascending": ascending, "zero_off": zero_off, "tbin": tbin, "nstot": nstot, "chan_bw_card_disagrees": cbw is not None,
-            "unit_scale_rows": bool(case["fseed"] % 5 == 3)}
+            "unit_scale_rows": bool(case["fseed"] % 5 == 3), "cell_pad": cell_pad}
     return path, ref, freqs, info
 
 
